@@ -16,12 +16,13 @@ def main():
     tier = os.environ.get("VERIF_TIER") if len(args) < 2 or args[1].startswith("--") else args[1]
     tier = tier if tier in ("quick", "thorough") else "quick"
     seed = int(os.environ.get("VERIF_SEED", "20260926"))
-    mod = importlib.import_module(pid.lower())
     if "--replay" in args:
+        mod = importlib.import_module(pid.lower())
         path = args[args.index("--replay") + 1]
         import replaylib
         return replaylib.replay(pid, path)
     try:
+        mod = importlib.import_module(pid.lower())
         return mod.main(tier, seed)
     except Exception:
         # the check could not run to completion on this tree (the implementation raised where the harness did not expect it,
